@@ -2,7 +2,7 @@
    Only statements closed by [exact]; the lemmas live in Proofs/Reference.v.
    The regular expressions are Generated/Regexes.v (re-translated from
    registry/reference.go on every run). *)
-From Oras Require Import Base.Prelude Base.Regex Generated.GC20 Model.Reference Proofs.Reference.
+From Oras Require Import Base.Prelude Base.Regex Generated.GC20 Model.Reference Model.RefOps Proofs.Reference Proofs.RefOps.
 
 (* ParseReference accepts exactly the grammar (any registry predicate). *)
 Theorem C20_parse_iff_grammar :
@@ -78,6 +78,48 @@ Theorem C20_url_slot :
     after_last c_slash (url_referrers plain r) = r_reference r.
 Proof. exact url_slot. Qed.
 Print Assumptions C20_url_slot.
+
+(* every reference-taking Repository operation (Resolve, FetchReference, Tag, PushReference on
+   manifests; Resolve, FetchReference on blobs) that accepts a reference string builds its
+   requests from the *resolved* reference: the reference-carrying request is in the list, its
+   last path segment is literally the resolved reference (tag dropped before a digest, base
+   stripped from a fully-qualified form), and no request targets anything but the manifest/blob
+   URL of the resolved reference or the manifest URL of the descriptor being tagged *)
+Theorem C20_op_requests_use_resolved :
+  forall (valid_registry : str -> bool) op plain breg brepo s d reqs,
+    ok_registry valid_registry breg -> valid_repository brepo = true ->
+    op_requests valid_registry op plain breg brepo s d = Some reqs ->
+    exists r, repo_parse valid_registry breg brepo s = Some r /\
+      r_registry r = breg /\ r_repository r = brepo /\
+      In (ref_request op plain r) reqs /\
+      Forall (fun mu => snd mu = url_manifest plain r \/ snd mu = url_blob plain r \/
+                        snd mu = url_manifest plain (mkRef breg brepo d)) reqs /\
+      after_last c_slash (snd (ref_request op plain r)) = r_reference r.
+Proof. exact op_requests_use_resolved. Qed.
+Print Assumptions C20_op_requests_use_resolved.
+
+(* ... and the equivalent forms of one reference send identical requests *)
+Theorem C20_op_requests_forms_agree :
+  forall (valid_registry : str -> bool) op plain breg brepo d0,
+    ok_registry valid_registry breg -> valid_repository brepo = true ->
+    (forall t, valid_tag t = true ->
+       op_requests valid_registry op plain breg brepo (breg ++ [c_slash] ++ brepo ++ [c_colon] ++ t) d0
+       = op_requests valid_registry op plain breg brepo t d0) /\
+    (forall d, valid_digest d = true ->
+       op_requests valid_registry op plain breg brepo (breg ++ [c_slash] ++ brepo ++ [c_at] ++ d) d0
+       = op_requests valid_registry op plain breg brepo d d0 /\
+       forall junk, contains c_slash junk = false -> contains c_at junk = false ->
+         op_requests valid_registry op plain breg brepo (junk ++ [c_at] ++ d) d0
+         = op_requests valid_registry op plain breg brepo d d0).
+Proof. exact op_requests_forms_agree. Qed.
+Print Assumptions C20_op_requests_forms_agree.
+
+Example C20_op_nonvacuous :
+  op_requests (fun _ => true) OpTag false (b "localhost:5000") (b "hello/world") (b "v1@sha256:e3b0c44298fc1c149afbf4c8996fb92427ae41e4649b934ca495991b7852b855")
+              (b "sha256:e3b0c44298fc1c149afbf4c8996fb92427ae41e4649b934ca495991b7852b855")
+  = Some [(b "GET", b "https://localhost:5000/v2/hello/world/manifests/sha256:e3b0c44298fc1c149afbf4c8996fb92427ae41e4649b934ca495991b7852b855");
+          (b "PUT", b "https://localhost:5000/v2/hello/world/manifests/sha256:e3b0c44298fc1c149afbf4c8996fb92427ae41e4649b934ca495991b7852b855")].
+Proof. vm_compute. reflexivity. Qed.
 
 (* non-vacuity: a concrete reference meets the hypotheses *)
 Example C20_nonvacuous :
